@@ -462,3 +462,8 @@ Example shortcut_is_a_vector_body :
   render (enc_vector [0%N] (rows_with vector_row [[r]])) =
   "{""status"":""success"",""data"":{""resultType"":""vector"",""result"":[{""metric"":{},""value"":[1700000000,""2""]}]}}".
 Proof. vm_compute. reflexivity. Qed.
+
+(* integers (%d of the log timestamps in nanoseconds, WriteInt64 of the vector timestamps in whole seconds) read back exactly *)
+Theorem int_text_lossless : forall z, read_fixed (int_text z) = Some ((z <? 0)%Z, Z.abs z, O).
+Proof. exact int_text_reads_back. Qed.
+Print Assumptions int_text_lossless.
